@@ -99,6 +99,8 @@ type Cluster struct {
 	ZKAfterClose int
 	Errors    []string // protocol errors seen by servers
 	WConns    []*WConn // tier W: every accepted connection
+	// ScanHandler, when set, serves scans of user tables on tier W (stateful scanners).
+	ScanHandler func(reg *Region, req *pb.ScanRequest) (*pb.ScanResponse, []KV, string)
 	DelayResp map[string]bool // tier W: server -> responses are held back until ReleaseResponses
 	delayed   []func()
 	MultiSeq  int
